@@ -20,8 +20,12 @@ def run(ctx):
     quick = ctx.tier == "quick"
     scs = cc.slow_reader_scenarios(plain, rnd, 6 if quick else 60, interceptors=2, family="slow-ic")
     lay = cc.layout_scenarios(plain[:150 if quick else 2000], rnd, 1, "layout-ic", ["ru"])
-    for s_ in lay:
+    for k_, s_ in enumerate(lay):
         s_["cfg"]["interceptors"] = 1 + rnd.randrange(3)
+        if k_ % 3 == 0:      # a panicking interceptor at every position of chains of 2 and 3
+            s_["cfg"]["interceptors"] = 2 + (k_ // 3) % 2
+            s_["cfg"]["panicIc"] = 1 + (k_ // 6) % s_["cfg"]["interceptors"]
+            s_["family"] = "layout-ic-panic"
     cviols, cstats, ctrace, ccases = cc.run_scenarios(ctx, scs + lay, name="c18cons")
     cmine = [v for v in cviols if v["clause"] in cc.CLAUSES["C18"]]
     mr = ctx.need(ctx.tlc("Consumer", "Consumer.quick.cfg", timeout=900, name="consumer-mc"), "consumer pipeline model (InterceptOnce)")
